@@ -209,3 +209,43 @@ func vpH_C02_background() {
 	cancel()
 	vpFireAll()
 }
+
+// sweep_vs_lookup (THREAD harness): the sweeper and a lookup / insertion of the same ID run concurrently, every
+// interleaving of their lock operations, the entry due or not (symbolic expiry): under last-seen an ID that the lookup
+// reports as seen - its expiry has just been renewed - is still remembered when both are done (the sweeper must decide
+// and delete inside ONE critical section); under first-seen a due entry may go either way but an entry that is not due
+// stays.
+func vpHC_C02_sweep_vs_lookup() {
+	ttl := time.Duration(vpInt("ttl", 1, 1<<30))
+	off := time.Duration(vpInt("expiry_offset", -(1 << 30), 1<<30))
+	now := time.Now()
+	tc := &LastSeenCache{m: map[string]time.Time{}, ttl: ttl}
+	tc.m["a"] = now.Add(off)
+	tc.m["b"] = now.Add(-1) // (another entry that is due, so that the sweeper has work either way)
+	var seen bool
+	useAdd := vpBool("second_thread_adds")
+	t1 := vpGo(func() { sweep(&tc.lk, tc.m, now) })
+	t2 := vpGo(func() {
+		if useAdd {
+			seen = !tc.Add("a")
+		} else {
+			seen = tc.Has("a")
+		}
+	})
+	vpWait()
+	vpAssert(vpThreadDone(t1) && vpThreadDone(t2), "both return")
+	exp, still := tc.m["a"]
+	if seen {
+		vpAssert(still && !exp.Before(now.Add(ttl)), "an ID just reported as seen under the last-seen strategy stays remembered for a full TTL from that sighting, also when a sweep runs concurrently")
+	}
+	if useAdd {
+		vpAssert(still, "an ID that was just added is remembered")
+	}
+	if off >= 0 {
+		vpAssert(still, "an entry that is not due is not swept")
+	}
+	_, b := tc.m["b"]
+	vpAssert(!b, "a due entry nobody touched is swept")
+	vpCover(seen && off < 0, "due entry renewed by the lookup")
+	vpCover(!seen && !useAdd, "swept before the lookup")
+}
